@@ -23,6 +23,25 @@ CLAIMS = {
              "operation of every script.",
         technique="Lean 4 invariant proof over the cache interpreter + regenerated never-cache list + trace correspondence",
         design="7 C01"),
+    'C02': dict(
+        text="Proof. Theorem Sx.C02_cache_transparent: for any initial chip and any history of valid API calls, handler invocations, re-creations "
+             "and admissible environment events between calls, the interpreter with the register cache and the one without it produce pairwise the "
+             "same return codes, outputs and callbacks (with payloads and with the results of calls made inside callbacks), the same register/FIFO "
+             "writes in the same order, never more transfers with the cache, and the same final chip and handle. It is a simulation proof by "
+             "induction on the program tree (execG_sim) that reuses the coherence invariant of C01 and the contract theorem of C19; failing "
+             "transfers and in-call schedules are outside the statement (they are keyed by transfer index, which differs between the builds). "
+             "Each interpreter is tied to its own binary: both builds of src/sx127x.c are run against sxmodel / sxmodel --nocache, and the two real "
+             "builds are additionally compared with each other in lock-step.",
+        technique="Lean 4 simulation proof between two interpreters + two real builds in lock-step",
+        design="7 C02"),
+    'C19': dict(
+        text="Proof for the driver side, correspondence-only for the backends. Theorem Sx.C19_driver_requests_valid: for either build, any history "
+             "(valid arguments, any chip, any schedule, any failing transfers) every transfer put on the bus carries 1..4 bytes (register calls) "
+             "or at most 2047 bytes (buffer calls) and stays inside 0x00..0x70; it follows from contract_api, a structural theorem over the model "
+             "of all 57 API functions for every handle and every answer of chip and bus. The harness' contract monitor checks the same on every "
+             "request of the real driver. The Linux/ESP-IDF backend half is not covered by a theorem (see DESIGN.md section 11).",
+        technique="Lean 4 structural theorem over all driver programs + contract monitor in the simulator",
+        design="7 C19"),
 }
 
 def main():
